@@ -219,8 +219,8 @@ EXPORT char *_stpncpy_s_chk(char *restrict dest, rsize_t dmax,
             dest++;
             src++;
             if (unlikely(slen >= srcbos)) {
-                invoke_safe_str_constraint_handler("stpncpy_s: src unterminated",
-                                                   (void *)src, ESUNTERM);
+                handle_error(orig_dest, orig_dmax, "stpncpy_s: src unterminated",
+                             ESUNTERM);
                 *errp = RCNEGATE(ESUNTERM);
                 return NULL;
             }
@@ -273,8 +273,8 @@ EXPORT char *_stpncpy_s_chk(char *restrict dest, rsize_t dmax,
             dest++;
             src++;
             if (unlikely(slen >= srcbos)) {
-                invoke_safe_str_constraint_handler("stpncpy_s: src unterminated",
-                                                   (void *)src, ESUNTERM);
+                handle_error(orig_dest, orig_dmax, "stpncpy_s: src unterminated",
+                             ESUNTERM);
                 *errp = RCNEGATE(ESUNTERM);
                 return NULL;
             }
